@@ -205,6 +205,9 @@ func (fc *FnCtx) onStack(fn *ssa.Function) bool {
 func (fc *FnCtx) inline(st *State, instr ssa.CallInstruction, callee *ssa.Function, args []SV, mc *ssa.MakeClosure, resT types.Type) SV {
 	vc := fc.vc
 	sub := newFnCtx(vc, callee, fc)
+	if instr != nil {
+		sub.inlinePath = append(append([]ssa.Instruction{}, fc.inlinePath...), instr)
+	}
 	sub.modTargets, sub.modAll = fc.modTargets, fc.modAll
 	sub.inheritFrame(fc)
 	for i, p := range callee.Params {
@@ -355,7 +358,7 @@ func (fc *FnCtx) applyContract(st *State, instr ssa.CallInstruction, c *Contract
 	ord := 0
 	pos := "-"
 	if instr != nil {
-		ord = fc.callOrd[instr]
+		ord = fc.ordOf(instr)
 		pos = fc.e.pos(instr.Pos())
 	}
 	site := fmt.Sprintf("%s#%d", calleeName, ord)
@@ -695,18 +698,38 @@ func (fc *FnCtx) frameCheckTarget(st *State, t modTarget, instr ssa.CallInstruct
 // ---------- at-call anchors ----------
 
 func (fc *FnCtx) atCall(st *State, instr ssa.CallInstruction, name string, args []SV, after bool, res SV) {
-	if fc.contract == nil || instr == nil {
+	if instr == nil {
 		return
 	}
-	ord := fc.callOrd[instr]
-	for _, a := range fc.contract.Ats {
-		if a.Kind != "call" || a.Target != name || (a.Ord >= 0 && a.Ord != ord) || a.After != after {
+	// the anchors are those of the unit's contract, also for a call that sits in an
+	// uncontracted helper inlined into the unit
+	owner := fc
+	if fc.contract == nil {
+		owner = fc.unitCtx()
+		if owner == fc || owner.contract == nil || len(fc.inlinePath) == 0 {
+			return
+		}
+	}
+	ord := fc.ordOf(instr)
+	if owner == fc && fc.parent != nil {
+		ord = fc.callOrd[instr] // an inlined closure with anchors of its own counts locally
+	}
+	for _, a := range owner.contract.Ats {
+		if a.Kind != "call" || a.Target != name || (a.Ord >= 0 && a.Ord != ord) || a.After != after || ord == -2 {
 			continue
 		}
 		a := a
 		fc.vc.atMatched[fmt.Sprintf("%s:%d", a.C.File, a.C.Line)] = true
-		env := fc.env(st, instr.Block())
-		env.atInstr = instr
+		var env *Env
+		if owner == fc {
+			env = fc.env(st, instr.Block())
+			env.atInstr = instr
+		} else {
+			// evaluate in the unit's scope, at the call that led into the helper
+			top := fc.inlinePath[0]
+			env = owner.env(st, top.Block())
+			env.atInstr = top
+		}
 		for i, v := range args {
 			env.vars[fmt.Sprintf("arg%d", i)] = v
 		}
